@@ -8,6 +8,7 @@ func f(val x) is return x + 1
 func idf(val x) is return x
 func second(val x, val y) is return y
 func sum3(val x, val y, val z) is return x + (y + z)
+func add2(val x, val y) is return x + y
 """
 BINOPS = ['+', '-', '=', '~=', '<', '<=', '>', '>=', 'and', 'or']
 UNOPS = ['-', '~']
@@ -101,6 +102,23 @@ def expr_programs(depth2=True, full=False, seed=0):
                 for e in (binexpr(op, 's0', cst), binexpr(op, cst, 's0')):
                     c = ctxs[k % len(ctxs)]; k += 1
                     out.append((f"expr:{e}:ctx={c}", wrap_main(contexts_main(e)[c])))
+    # expressions that need stack temporaries (a right operand that is itself an operation), alone and beside calls in actual lists
+    temp_exprs = ['s0 - (s1 + l)', '(s0 - (s1 + l)) - (l + 3)', '(s0 + s1) - (l - s1)', 's0 - (s1 - (l - 3))', '(s0 - s1) < (l + s1)',
+                  's0 + (a[1] - (l + 2))', '(s0 - (l + 1)) = (s1 - (l + 2))', 'f(s0) - (s1 + f(l))', '(s0 - (s1 + 1)) + (l - (s1 + 2))']
+    temp_ctxs = {
+        'actual1-before-call': lambda e: f"0(add2({e}, f(s1)))",
+        'actual2-after-call': lambda e: f"0(add2(f(s1), {e}))",
+        'actual2-after-const': lambda e: f"0(second(50, {e}))",
+        'actual-mid-calls': lambda e: f"0(sum3(f(s0), {e}, f(l)))",
+        'two-temps': lambda e: f"0(add2({e}, {e}))",
+        'nested-call': lambda e: f"0(f(add2({e}, idf(s1))))",
+        'put-then-exit': lambda e: f"{{ put({e}, 0); 0({e}) }}",
+        'elem-index': lambda e: f"{{ a[2] := 9; 0(a[2] + ({e})) }}",
+        'while-cond': lambda e: f"{{ m := 0; while (m < 2) and (({e}) ~= 12345) do m := m + 1; 0(m) }}",
+    }
+    for e in temp_exprs:
+        for cn, cf in temp_ctxs.items():
+            out.append((f"temps:{e}:ctx={cn}", wrap_main(cf(e))))
     # formals and function results
     for op in BINOPS:
         lv = ['(p0 < p1)', '(p1 = 0)'] if op in ('and', 'or') else ['p0', 'p1', '3', 'f(p0)']
